@@ -482,6 +482,10 @@ class Interp:
             return a.t == b.t
         if a is b:
             return True
+        if isinstance(a, SVal) and hasattr(b, 'as_val'):
+            return a.t == b.as_val()
+        if isinstance(b, SVal) and hasattr(a, 'as_val'):
+            return b.t == a.as_val()
         if not S.is_sym(a) and not S.is_sym(b):
             return a is b
         raise Unsupported('`is` on %r, %r' % (a, b))
@@ -770,6 +774,10 @@ class Interp:
         m = self.world.binop_model('index', obj, idx, self)
         if m is not NotImplemented:
             return m
+        if type(obj).__name__ == 'ObjVal' and self.world.find_method(
+                obj.cls, '__getitem__') is not None:
+            return self.call(self.world.attr_model(obj, '__getitem__', self),
+                             [idx], {}, node)
         if isinstance(obj, SVal):
             # item read on an opaque object: uninterpreted, logged
             from . import models
@@ -834,7 +842,8 @@ class Interp:
                     return BoundMethod(SStr(S.unbox_str(obj.t)), name)
                 if self.branch(z3.And(tg >= 0, tg <= 3)):
                     self.raise_('AttributeError', node=node)
-        if type(obj).__name__ in ('SMapCell', 'WriteLog'):
+        if type(obj).__name__ in ('SMapCell', 'WriteLog', 'SetMapCell',
+                                  'Bucket'):
             return BoundMethod(obj, name)
         if isinstance(obj, ExcVal):
             return BoundMethod(obj, name)
@@ -945,7 +954,7 @@ class Interp:
                     dfr.parent = fn.closure
                 fr.vars[p] = self.eval(defaults[i - nd], dfr)
             else:
-                raise Unsupported('missing argument %s' % p)
+                self.raise_('TypeError', 'missing argument %s' % p)
         if a.vararg:
             fr.vars[a.vararg.arg] = tuple(args[len(params):])
         elif len(args) > len(params):
